@@ -16,6 +16,7 @@ definitions), Trace_Plateaus.tla (judge of recorded executions).
 from __future__ import annotations
 
 import itertools
+import math
 from fractions import Fraction
 
 import numpy as np
@@ -40,14 +41,25 @@ def _series_da(ys, dxs, coord_kind, yscale, xscale, with_var, origin=0):
     shift = (0, -span - 11, -(span // 2) - 3, -span - 3)[origin % 4]
     xs_int = xs_int + shift
     yv = np.asarray(ys, dtype='float64') * yscale
+    # data dtype: float64 (with IEEE negative zeros for the zeros of every other series: contents must be
+    # kept bit for bit), float32, or int64 where the scaled values are integers
+    ydt = ('float64', 'float32', 'int64')[(origin // 4) % 3]
+    if ydt == 'int64' and (with_var or not np.all(yv == np.rint(yv))):
+        ydt = 'float64'
+    if ydt == 'float32' and not np.all(yv.astype('float32').astype('float64') == yv):
+        ydt = 'float64'
+    if ydt == 'float64' and origin % 2:
+        yv = np.where(yv == 0.0, -0.0, yv)
     var = (np.arange(n, dtype='float64') + 1.0) if with_var else None
-    data = sc.array(dims=['time'], values=yv, variances=var, unit='Hz')
+    data = sc.array(dims=['time'], values=yv.astype(ydt), variances=None if var is None else var.astype(ydt), unit='Hz')
     if coord_kind == 'float':
         x = sc.array(dims=['time'], values=(xs_int + 3) * xscale, unit='s')
     elif coord_kind == 'int':
         x = sc.array(dims=['time'], values=xs_int + 7, unit='s', dtype='int64')
     elif coord_kind == 'datetime':
-        x = sc.epoch(unit='ns') + sc.array(dims=['time'], values=xs_int + 10**9, unit='ns', dtype='int64')
+        # a present-day time stamp (1.7e18 ns after the epoch: beyond what float64 resolves to 1 ns) or an early one
+        t0 = 1_727_000_000_123_456_789 if origin % 2 else 10**9
+        x = sc.epoch(unit='ns') + sc.array(dims=['time'], values=xs_int + t0, unit='ns', dtype='int64')
     else:
         raise MachineryError(coord_kind)
     da = sc.DataArray(data, coords={'time': x})
@@ -90,6 +102,16 @@ def _run_find(ctx, tid, ys, dxs, an, ad, minn, coord_kind, yscale=1.0, xscale=1.
         return ev, False
     if not sc.identical(da, snapshot):
         ctx.violation('find_plateaus modified its input', {'event': ev})
+    if tid % 5 == 0:
+        # the same call again (second use): the selection must not depend on an earlier call
+        try:
+            pl2 = filtering.find_plateaus(da, atol=atol, min_n_points=mn)
+            if not sc.identical(pl2, pl):
+                ctx.violation(f'find_plateaus: a second identical call returns a different result ({coord_kind} coord)',
+                              {'event': ev})
+        except Exception as e:  # noqa: BLE001
+            ctx.violation(f'find_plateaus: a second identical call raised {type(e).__name__} ({coord_kind} coord)',
+                          {'event': ev, 'exc': repr(e)})
     # map every output point back to its input index through the (unique) coordinate
     xin = da.coords['time'].values
     index_of = {xin[i].item() if hasattr(xin[i], 'item') else xin[i]: i for i in range(len(xin))}
@@ -113,13 +135,18 @@ def _run_find(ctx, tid, ys, dxs, an, ad, minn, coord_kind, yscale=1.0, xscale=1.
                 idx.append(0)
                 continue
             idx.append(i + 1)
-            if not sc.identical(content['time', j], snapshot['time', i]):
+            if not sc.identical(content['time', j], snapshot['time', i]) or \
+                    np.asarray(content['time', j].values).tobytes() != np.asarray(snapshot['time', i].values).tobytes():
                 same = False
         bins.append(idx)
         if collapsed is not None and idx and all(idx):
             exact_mean = Fraction(sum(int(ys[i - 1]) for i in idx), len(idx)) * Fraction(yscale)
             got = float(cvals[k])
-            mean_ok = abs(Fraction(got) - exact_mean) <= abs(exact_mean) * Fraction(1, 10**12) + Fraction(1, 10**300)
+            # the mean is formed in the precision of the data: 1e-12 relative for double, 1e-6 for single
+            # (sum of at most 500 terms of one sign, so no cancellation), exact to 1e-12 for integers
+            rtol_mean = Fraction(1, 10**6) if da.dtype == sc.DType.float32 else Fraction(1, 10**12)
+            mean_ok = math.isfinite(got) and \
+                abs(Fraction(got) - exact_mean) <= abs(exact_mean) * rtol_mean + Fraction(1, 10**300)
             lo, hi = cedges[k][0], cedges[k][1]
             col.append({'mean_ok': bool(mean_ok), 'lo_le_first': bool(lo <= xin[idx[0] - 1]),
                         'hi_gt_last': bool(hi > xin[idx[-1] - 1])})
@@ -315,8 +342,8 @@ def run(ctx):
             ys.append(min(max(level + rng.randrange(-1, 2), 0), 2000))
         kind = rng.choice(kinds)
         minn = rng.choice([1, 2, 3, max(1, n // 4), n])
-        ev, ok = _run_find(ctx, tid, ys, dxs, an, ad, minn, kind, 2.0 ** rng.randrange(-8, 8),
-                           2.0 ** rng.randrange(-8, 8) if kind == 'float' else 1.0,
+        ev, ok = _run_find(ctx, tid, ys, dxs, an, ad, minn, kind, 2.0 ** rng.choice([-40, -8, -3, 0, 1, 5, 30]),
+                           2.0 ** rng.choice([-30, -8, -1, 0, 3, 20]) if kind == 'float' else 1.0,
                            with_var=rng.random() < 0.5)
         events.append(ev)
         returned += ok
